@@ -132,6 +132,11 @@ func genAppMessage(t *rapid.T, s *sim, useDict bool, id string) (*quickfix.Messa
 		return m, shape
 	}
 	m.Header.SetString(35, rapid.SampledFrom([]string{"D", "8", "AE", "UX"}).Draw(t, "mt"))
+	if rapid.IntRange(0, 4).Draw(t, "no-body-fields") == 0 {
+		// an application message that consists of its header alone (a user-defined notification
+		// type): legal, and the replay must not give it a body
+		return m, "no-body-fields"
+	}
 	m.Body.SetString(11, id)
 	n := rapid.IntRange(0, 6).Draw(t, "nfields")
 	for i := 0; i < n; i++ {
